@@ -515,9 +515,16 @@ def run(ctx: Ctx, rs: RuleSet, tier: str):
       return False
     tg = [unparse(x) for x in comp.generators[0].target.elts]
     it = roles.deref(visit, comp.generators[0].iter)
-    return sorted([unparse(comp.elt.left),
-                   unparse(comp.elt.comparators[0])]) == sorted(tg) and (
-                       isinstance(it, ast.Call) and unparse(it.func) == 'zip')
+    if not (sorted([unparse(comp.elt.left),
+                    unparse(comp.elt.comparators[0])]) == sorted(tg) and
+            isinstance(it, ast.Call) and unparse(it.func) == 'zip'):
+      return False
+    # the old children are what the node's traverser flattens it to (for a
+    # dict iterating the node itself gives its keys, not its values)
+    zipped_node_itself.extend(a for a in it.args if unparse(a) == node)
+    return True
+
+  zipped_node_itself: list = []
 
   def v_atoms(is_factory, traversable, unchanged):
     def ev(t):
@@ -548,10 +555,16 @@ def run(ctx: Ctx, rs: RuleSet, tier: str):
            ctx.loc(visit, visit.node))
   has_test = any(identity_test(e) for e in walk_function(visit.node)
                  if isinstance(e, ast.Call))
-  rs.check(has_test and same == [node] and node not in changed, rule,
+  rs.check(has_test and same == [node] and node not in changed and
+           not zipped_node_itself, rule,
            f'{visit.qualname}:identity-test',
            'a container is rebuilt only if some child is not identical (is) '
-           'to the original child', ctx.loc(visit, visit.node))
+           'to the original child' if not zipped_node_itself else
+           f'the new children are compared with `{node}` iterated directly, '
+           'not with the children its traverser flattens it to: for a dict '
+           'those are the keys, so every dict looks changed and is rebuilt on '
+           'each call (a container without ArgFactory is no longer passed '
+           'through uncopied)', ctx.loc(visit, visit.node))
   pr = ctx.func(f'{P}._promote_arg_factory')
   g = ctx.cfg(pr)
   argp = pr.params[0]
